@@ -43,6 +43,8 @@ class StmtMixin:
         states = [p]
         outs = []
         gats = self.specs.ghost_ats.get(fc.qname) if (self.specs and not fc.spec) else None
+        if gats and fc.node is not None:
+            self.check_anchors(fc.qname, fc.node)
         for st in stmts:
             nxt = []
             for q in states:
@@ -60,6 +62,27 @@ class StmtMixin:
                 break
         outs.extend((NEXT, q, None) for q in states)
         return outs
+
+    def check_anchors(self, qname, fnode):
+        """every ghost_at of this function must find its anchor statement: a sidecar that no longer matches the code
+        makes the unit undecidable (reported as unsupported), never silently weaker"""
+        gats = self.specs.ghost_ats.get(qname) if self.specs else None
+        if not gats:
+            return
+        done = getattr(self, '_anchors_ok', None)
+        if done is None:
+            done = self._anchors_ok = set()
+        if qname in done:
+            return
+        texts = {}
+        for sub in ast.walk(fnode):
+            if isinstance(sub, ast.stmt) and not isinstance(sub, (ast.If, ast.While, ast.For, ast.Try, ast.FunctionDef)):
+                t = ast.unparse(sub)
+                texts[t] = texts.get(t, 0) + 1
+        for g in gats:
+            if texts.get(g.after, 0) <= g.nth:
+                raise Unsupported('ghost_at anchor not found in %s (the sidecar is out of date): %s' % (qname, g.after[:80]))
+        done.add(qname)
 
     def apply_ghost_ats(self, gats, st, p, fc):
         """sidecar ghost statements attached after a statement (matched by its source text, never by line)"""
@@ -178,6 +201,7 @@ class StmtMixin:
                             if cls != 'dict':
                                 raise Unsupported('del item of ' + cls)
                             for (q4, key) in self.cases(q3, vs[1]):
+                                self.policy_key(q4, vs[0], key, t)
                                 out.extend(self.lift(self.dict_del(q4, VRef(vs[0].t, 'dict'), key, fc, t)))
                         return out
                     nxt.extend(self.lift(self.ev_many([t.value, t.slice], q, fc), f))
@@ -323,6 +347,8 @@ class StmtMixin:
                 return VInt(k)
             v = VRef(z3.Select(harr(p, '$val'), s.d, k))
             self.wf_value(p, v)
+            if s.pairs == 'values':
+                return v
             return VTuple([VInt(k), v])
         if isinstance(s, VItems):
             k = s.ks[i]
